@@ -74,6 +74,13 @@ func GenerateEphemeralKeypair() (privateKey, publicKey [KeySize]byte, err error)
 // ComputeECDH performs X25519 Diffie-Hellman key exchange and returns
 // the shared secret. The shared secret should be passed to DeriveSessionKey.
 func ComputeECDH(privateKey, remotePublicKey [KeySize]byte) ([KeySize]byte, error) {
+	// An all-zero private key is a key that was already consumed and wiped
+	// (ZeroKey). X25519 would clamp it to a fixed public scalar, so whoever
+	// chose the remote public key could compute the result: refuse it.
+	if privateKey == ([KeySize]byte{}) {
+		return [KeySize]byte{}, fmt.Errorf("invalid private key: zero key")
+	}
+
 	var sharedSecret [KeySize]byte
 
 	// Check for low-order points (all zeros public key is invalid)
